@@ -232,7 +232,16 @@ def _import_file(
         import_request_done(req, "bad_acq")
         return
 
-    file_name = path.relative_to(acq_name)
+    # The acquisition must be a proper parent of the path being imported,
+    # otherwise there's no valid name left for the file
+    try:
+        file_name = path.relative_to(acq_name)
+    except ValueError:
+        file_name = None
+    if file_name is None or invalid_import_path(str(file_name)):
+        log.warning(f'Rejecting acq path "{acq_name}": not a parent of "{path}"')
+        import_request_done(req, "bad_acq")
+        return
 
     # If a copy already exists, we're done
     if node.db.named_copy_tracked(acq_name, file_name):
